@@ -473,6 +473,8 @@ def r10_6(chk, tier):
             if not calls:
                 chk.fail('R10.6', site, fn['file'], fn['l'], 'destructor does not call flatten_and_destroy(): destroying a deeply nested value recurses once per level', None, fn['q']); continue
             callee = facts.callee(fn, calls[0])
+            # the routine may be split into private helpers (E11): analysed with those calls expanded
+            if callee is not None and callee.get('body') is not None: callee = I.expand(facts, callee, depth=3)
             kinds_moved = set()
             if callee is not None and callee.get('body') is not None:
                 g = C.CFG(callee['body'])
